@@ -8,12 +8,13 @@ usage: alpha_rename.py <dest-root>        (creates <dest-root>/src/nunavut)
 import ast
 import io
 import keyword
+import os
 import pathlib
 import shutil
 import sys
 import tokenize
 
-REPO = pathlib.Path("/repo")
+REPO = pathlib.Path(os.environ.get("NVSA_SRC_ROOT", "/repo"))
 
 
 def local_names(fn: ast.AST):
